@@ -60,8 +60,7 @@ func CreateFromSpec(spec *Spec) *Signer {
 		signer.SetTTL(ttl)
 	}
 
-	if len(spec.AccessKeys) > 0 {
-		signer.SetAccessKeyStore(idSecretMap(spec.AccessKeys))
-	}
+	// always set a store, Verify panics without one, even if it is empty
+	signer.SetAccessKeyStore(idSecretMap(spec.AccessKeys))
 	return signer
 }
